@@ -22,6 +22,12 @@ fn arm_enter_%(d)s<'a, N, T: AsRef<Path>, U: AsRef<Path>>(x: &'a N, $STATE, ret:
 //@end
     skip_whitespace
 }
+fn guard_enter_%(d)s(skip_whitespace: bool, strip_comments: bool, ignore_include: bool) -> (r: bool)
+    ensures r == true,                                                                        //: C06.guard.%(d)s-arm-fires-under-every-configuration %(gp)s
+{
+//@guard %(F)s | - | preprocess_str | NodeEvent::Enter(RefNode::%(d)s(x))
+//@end
+}
 fn arm_leave_%(d)s(skip_whitespace: bool) -> (r: bool)
     ensures r == false,                                                                       //: C06.site.%(d)s-leave-reenables-white-space C06
 {
@@ -29,7 +35,7 @@ fn arm_leave_%(d)s(skip_whitespace: bool) -> (r: bool)
 //@arm %(F)s | - | preprocess_str | NodeEvent::Leave(RefNode::%(d)s(_))
 //@end
     skip_whitespace
-}""" % dict(d=d, F=F))
+}""" % dict(d=d, F=F, gp=('C06,C18,C13' if 'eywords' in d else 'C06,C18')))
 head = open(os.path.join(D, 'arms_head.vx')).read()
 tail = open(os.path.join(D, 'arms_tail.vx')).read()
 # $STATE: the parameters of preprocess_str, available to every lifted arm
